@@ -47,7 +47,7 @@ EndMatches(k) == Is(k, "LoadEnd") /\ Matches(Ev(k), hist'[Len(hist')])
 
 Silent ==
   /\ \/ CheckParams /\ ~Finished
-     \/ CacheStep \/ SkipOpen \/ Parse \/ Register \/ ImportNext \/ ImportGlobHits \/ ImportGlobPick \/ ImportsDone
+     \/ CacheStep \/ NestedCache \/ SkipOpen \/ Parse \/ Register \/ ImportNext \/ ImportGlobHits \/ ImportGlobPick \/ ImportsDone
      \/ Resolve \/ ObjProcsDone
      \/ \E m \in DOMAIN models : ObjProcs(m) /\ models[m].defs = <<>>
   /\ l' = l
@@ -60,7 +60,7 @@ Observed ==
   \/ /\ Is(l + 1, "ObjProc") /\ l' = l + 1
      /\ \E m \in DOMAIN models : ObjProcs(m) /\ models[m].defs # <<>> /\ m.f = Ev(l + 1).file
   \* the main model's processors: the call, then either the return or the exception
-  \/ /\ Is(l + 1, "ModelProc") /\ MainMP /\ Top.file = Ev(l + 1).file
+  \/ /\ Is(l + 1, "ModelProc") /\ MainMP /\ Top.m.f = Ev(l + 1).file
      /\ IF Finished THEN EndMatches(l + 2) /\ l' = l + 2 ELSE l' = l + 1
   \/ /\ CheckParams /\ Finished /\ EndMatches(l + 1) /\ l' = l + 1
   \/ /\ Cleanup /\ EndMatches(l + 1) /\ l' = l + 1
